@@ -79,8 +79,8 @@ func c15Value(c *ctx, val interface{}, label string, seed uint64, budget int) {
 	kinds := []string{"once", "fromk", "short", "shortnil"}
 	for k := 0; k < writes; k++ {
 		for _, kind := range kinds {
-			for _, entry := range []string{"WriteObject", "WriteTo", "Serializer.WriteTo"} {
-				if entry != "WriteObject" && (k+len(kind))%5 != 0 { // the one-shot entries share the code path: sample them
+			for _, entry := range []string{"WriteObject", "WriteTo", "Serializer.WriteTo", "Serializer.WriteTo+Write"} {
+				if entry != "WriteObject" && entry != "Serializer.WriteTo+Write" && (k+len(kind))%5 != 0 { // the one-shot entries share the code path: sample them
 					continue
 				}
 				fw := &faultWriter{k: k, kind: kind}
@@ -94,9 +94,21 @@ func c15Value(c *ctx, val interface{}, label string, seed uint64, budget int) {
 				case "WriteTo":
 					e := hessian.NewEncoder(nil, nm)
 					o, msg = guard(func() error { return e.WriteTo(fw, val) })
-				default:
+				case "Serializer.WriteTo":
 					s := hessian.NewSerializer(map[string]reflect.Type{}, nm)
 					o, msg = guard(func() error { return s.WriteTo(fw, val) })
+				default: // a first value goes through, the fault hits the continuation call
+					s := hessian.NewSerializer(map[string]reflect.Type{}, nm)
+					fw.k = k + 1 // the first value (an int) takes exactly one write
+					o, msg = guard(func() error {
+						if e := s.WriteTo(fw, int32(7)); e != nil {
+							return nil // not the call under test
+						}
+						return s.Write(val)
+					})
+					if fw.calls <= k+1 {
+						continue
+					}
 				}
 				c.eval(fmt.Sprint(label, "#", seed, "/", k, "/", kind, "/", entry))
 				c.dist["kind:"+kind]++
@@ -146,5 +158,9 @@ func runC15(c *ctx) {
 			budget := 6 + (i%5)*12
 			c15Value(c, genValue(t, seed, budget, 40), t.String(), seed, budget)
 		}
+	}
+	// values whose whole encoding is a single tag write
+	for i, v := range []interface{}{nil, (*int32)(nil), (**string)(nil), (*Inner)(nil), []interface{}{}, map[string]string{}, map[string]string(nil), true, ""} {
+		c15Value(c, v, fmt.Sprintf("special#%d:%T", i, v), uint64(i), 0)
 	}
 }
